@@ -553,7 +553,8 @@ def latest_mjd(plate, **kwargs):
     mjd = np.zeros(len(platevec), dtype='i4')
     mjdre = re.compile(r'spPlate-[0-9]{4}-([0-9]{5}).fits')
     unique_plates = np.unique(platevec)
-    paths = spec_path(unique_plates, **kwargs)
+    paths = spec_path(unique_plates, path=kwargs.get('path'),
+                      topdir=kwargs.get('topdir'), run2d=kwargs.get('run2d'))
     for p, q in zip(paths, unique_plates):
         plateglob = "{0}/spPlate-{1:04d}-*.fits".format(p, q)
         bigmjd = 0
